@@ -239,6 +239,7 @@ structure World where
   betId : Nat := Gen.betIdStart
   nextPackage : Nat := 0
   out : List Ev := []
+  foreign : Nat := 0                    -- ghost: requests made through a market other than the order's own (see SimLoop.doAction)
   deriving Repr, Inhabited
 
 namespace World
